@@ -563,13 +563,13 @@ def backend_family(tier):
             mcs.append(tlc_model_check("backend_" + c, "Backend_MC.tla", "Backend_MC_%s.cfg" % c, workers=6,
                                        timeout=900 if tier == "quick" else 4000, xmx="8g", extra=""))
         # the seeded design errors must be rejected by the invariants (non-vacuity of the design model)
-        for v in ("resend_unsent_only", "match_newest", "drain_forgets"):
+        for v in ("resend_unsent_only", "match_newest", "drain_forgets", "drop_on_backpressure"):
             r = tlc_model_check("backend_bad_" + v, "Backend_MC.tla", "Backend_MC_bad_%s.cfg" % v, workers=4, timeout=600, xmx="4g", extra="")
             if r.get("ok") or not r.get("violated"):
                 raise ToolError("Backend design model accepts the seeded design error %s" % v)
     mc = None
     if mcs:
-        mc = {"name": "Backend_MC[" + ",".join(cfgs) + "] + 3 seeded design errors rejected", "ok": all(m["ok"] for m in mcs),
+        mc = {"name": "Backend_MC[" + ",".join(cfgs) + "] + 4 seeded design errors rejected", "ok": all(m["ok"] for m in mcs),
               "wall_s": round(sum(m["wall_s"] for m in mcs), 1), "states": sum(m.get("states", 0) for m in mcs),
               "transitions": sum(m.get("transitions", 0) for m in mcs),
               "violated": next((m.get("violated") for m in mcs if m.get("violated")), None),
@@ -662,7 +662,7 @@ def hostile_family(tier):
             r = tlc_model_check("session_bad_" + v, "Session_MC.tla", "Session_MC_bad_%s.cfg" % v, workers=2, timeout=300, xmx="2g", extra="")
             if r.get("ok") or not r.get("violated"):
                 raise ToolError("Session design model accepts the seeded design error %s" % v)
-        mc = dict(m, name="Session_MC + 3 seeded design errors rejected")
+        mc = dict(m, name="Session_MC + 4 seeded design errors rejected")
     d = fresh_dir(os.path.join(WORK, "hostile_" + tier))
     base = 31000 + (os.getpid() % 50) * 40
     cmds, files = [], []
